@@ -115,6 +115,18 @@ fn wal_files(run: &mut Run) -> Option<usize> {
     }
 }
 
+fn wal_names(run: &mut Run) -> Option<BTreeSet<String>> {
+    match run.child.as_mut()?.call(&Op::Ls) {
+        Resp::Ls(v) => Some(
+            v.iter()
+                .filter(|(n, _, d)| !d && n.rsplit('/').next().map(|b| !b.is_empty() && b.bytes().all(|c| c.is_ascii_digit())).unwrap_or(false))
+                .map(|(n, _, _)| n.clone())
+                .collect(),
+        ),
+        _ => None,
+    }
+}
+
 fn file_states(run: &mut Run) -> Vec<FileState> {
     match run.child.as_mut().map(|c| c.call(&Op::FileStates)) {
         Some(Resp::FileStates(v)) => v,
@@ -239,6 +251,7 @@ pub fn run_reclaim(case: &ReclaimCase, excl: &BTreeSet<String>) -> Outcome {
         let unconsumed_before: usize = run.model.topics.iter().map(|t| t.avail_min()).sum();
         // 3) let the reclaimer run (1000 ticks of 1 ms + slack)
         let before = wal_files(&mut run);
+        let names_before_wait = wal_names(&mut run);
         let fs = file_states(&mut run);
         if fs.iter().any(|f| f.fully && f.locked == 0 && f.total > 0 && f.checkpointed >= f.total) {
             run.out.features.insert("file_eligible_for_deletion".into());
@@ -275,6 +288,23 @@ pub fn run_reclaim(case: &ReclaimCase, excl: &BTreeSet<String>) -> Outcome {
         for aop in &case.phase2 {
             for s in run.expand(aop) {
                 run.apply(&s)?;
+            }
+        }
+        // the reclaimer may have run late (loaded machine): look again right before the restart
+        if let (Some(seen), Some(now)) = (&names_before_wait, wal_names(&mut run)) {
+            if seen.iter().any(|n| !now.contains(n)) && !deleted {
+                deleted = true;
+                run.out.features.insert("wal_file_deleted".into());
+                run.out.features.insert("wal_file_deleted_late".into());
+                for t in 0..nt {
+                    let c = run.model.topics[t].consumed_min();
+                    if c < in_first_file[t] {
+                        return viol(
+                            Oracle::Content,
+                            format!("a WAL file was reclaimed while topic {} had consumed only {} of the {} entries stored in the first file", t, c, in_first_file[t]),
+                        );
+                    }
+                }
             }
         }
         // 5) everything unconsumed must still be there - in this process or after a restart
